@@ -142,6 +142,21 @@ def loop_report(ctx, b, ev, res):
                                 envu = res.env_out.get(u, {})
                                 if all(envu.get(p_[2]) == p_ for p_ in hp):
                                     stale = True
+                        if not stale:
+                            # the latch may be shared with paths that do update the link (`continue` from several places): what counts is whether THIS
+                            # wait can get back to the loop head without passing an assignment of the loop-carried values its test was computed from
+                            assigned = set()
+                            for y in body:
+                                blk = b.blocks[y]
+                                if any(st["place"]["l"] in set(p_[2] for p_ in hp) and not st["place"]["proj"] for st in blk["stmts"]):
+                                    assigned.add(y)
+                                tt = blk["term"]
+                                if tt["k"] == "call" and not tt["dest"]["proj"] and tt["dest"]["l"] in set(p_[2] for p_ in hp):
+                                    assigned.add(y)
+                            if tgt not in assigned:
+                                around = b.reach(tgt, removed=frozenset(backs), stop=frozenset(assigned)) & body
+                                if any(u in around or u == tgt for u in latches):
+                                    stale = True
                     if stale:
                         stale_waits.append((x, tgt))
                     else:
